@@ -14,13 +14,16 @@
   `C03_flat_tiff_exact` carries this from the file bytes on for a flat directory (value tags only, Lemmas/ExifFlat):
   DecodeTiff on a file whose first directory holds value tags in a forward, non-overlapping layout makes only successful
   reads, each equal to F[off, off+size).
-  What is still decided by the search only: the same for nested directories (IFD pointers, sub-IFDs, maker notes) and the
+  `C03_nested_tiff_exact` adds the pointers to the Exif and GPS directories (each a flat directory): IFD0 + ExifIFD +
+  GPSIFD in any forward layout without overlap (Lemmas/ExifNested).
+  What is still decided by the search only: sub-IFD lists, maker notes, a second top-level directory (IFD1), and the
   last step from exact value bytes to the record, i.e. the whole-file statement decode(encode(m, L)) = m for every
   layout the generator writes: see `partial` in the evidence.
 -/
 import Imeta.Lemmas.Exif
 import Imeta.Lemmas.ExifForward
 import Imeta.Lemmas.ExifFlat
+import Imeta.Lemmas.ExifNested
 namespace Imeta.Exif
 open Imeta
 
@@ -241,5 +244,145 @@ def readsOf : Outcome (R × Option ErrKind) → List (Tag × Option Bytes)
 /-- the model run on the sample file: one read, of the Make tag, with the six bytes "Canon\0" at offset 38 -/
 example : readsOf (decodeTiff sampleTb sampleF true { order := .little, firstIfd := 8, firstIfdType := ifd0, exifLength := 0, imageType := 0 })
     = [(sT1, some [67, 97, 110, 111, 110, 0])] := by decide +kernel
+
+/-- **IFD0 with Exif and GPS directories, forward layout, read exactly from the file bytes on.**  `W` names the tags of
+the layout: the out-of-line entries of IFD0 and those of the directories its pointers lead to.  `World` asks of each:
+a value tag lies inside the file, the 4 MiB limit and the read window; a pointer (0x8769 / 0x8825 in IFD0) leads to a
+`FlatDir`; the extents of any two different tags (a value's bytes, a pointer's directory) do not overlap; at most one
+pointer of each kind; the children of a pointer belong to W; at most 83 tags are pending at once.  `DirOK` is the same for
+IFD0 itself.  Then every read DecodeTiff makes — in IFD0, the Exif and the GPS directory, in whatever order the offsets
+put them — succeeds and returns exactly F[t.off, t.off + t.size). -/
+theorem C03_nested_tiff_exact (tb : Tables) (F : Bytes) (buffered : Bool) (h : Hdr) (cnt : Nat) (r' : R) (e : Option ErrKind)
+    (W : Tag → Prop) (hsmall : F.length < 2 ^ 32)
+    (w : World F (4 * 1024 * 1024) (if buffered then bufioSize else scratchSize) W)
+    (hroot : DirOK F { off := 0, base := 0, order := h.order, typ := h.firstIfdType, idx := 0 } h.firstIfd cnt (4 * 1024 * 1024)
+      (if buffered then bufioSize else scratchSize) (extent F))
+    (hrootW : ∀ x, IsEntry F { off := 0, base := 0, order := h.order, typ := h.firstIfdType, idx := 0 } h.firstIfd cnt x → W x)
+    (hres : decodeTiff tb F buffered h = .ok (r', e)) : Coh F r' ∧ Exact F r' :=
+  decodeTiff_nested tb F buffered h cnt r' e W hsmall w hroot hrootW hres
+
+/-! non-vacuity: a 70-byte TIFF — IFD0 {Make "Canon" at 38, Exif pointer to 44}, Exif directory at 44 {LensModel "RF 50mm"
+at 62} — meets `World` and `DirOK`, and the model run on it makes exactly the two reads, in file order -/
+
+def nF : Bytes :=
+  [73, 73, 42, 0, 8, 0, 0, 0,
+   2, 0,
+   0x0f, 0x01, 2, 0, 6, 0, 0, 0, 38, 0, 0, 0,
+   0x69, 0x87, 4, 0, 1, 0, 0, 0, 44, 0, 0, 0,
+   0, 0, 0, 0,
+   67, 97, 110, 111, 110, 0,
+   1, 0,
+   0x34, 0xa4, 2, 0, 8, 0, 0, 0, 62, 0, 0, 0,
+   0, 0, 0, 0,
+   82, 70, 32, 53, 48, 109, 109, 0]
+def nM : Tag := { off := 38, count := 6, id := 271, typ := 2, ifd := 1, idx := 0, order := .little }
+def nP : Tag := { off := 44, count := 1, id := 0x8769, typ := tIfd, ifd := 1, idx := 0, order := .little }
+def nL : Tag := { off := 62, count := 8, id := 42036, typ := 2, ifd := 3, idx := 0, order := .little }
+theorem nE0 : entryAt sampleIfd ((nF.drop (8 + 2)).take (2 * 12)) 0 = .ok (some nM) := by decide +kernel
+theorem nE1 : entryAt sampleIfd ((nF.drop (8 + 2)).take (2 * 12)) 1 = .ok (some nP) := by decide +kernel
+theorem nPc : ptrCount nF nP = 1 := by decide +kernel
+theorem nC0 : entryAt nP.childIfd ((nF.drop (44 + 2)).take (1 * 12)) 0 = .ok (some nL) := by decide +kernel
+theorem nExtP : extent nF nP = 18 := by rw [extent_ptr nF nP rfl, nPc]
+theorem nExtM : extent nF nM = 6 := by decide +kernel
+theorem nExtL : extent nF nL = 8 := by decide +kernel
+
+theorem nRootEntries : ∀ k t, k < 2 → entryAt sampleIfd ((nF.drop (8 + 2)).take (2 * 12)) k = .ok (some t) → t = nM ∨ t = nP := by
+  intro k t hk h
+  have : k = 0 ∨ k = 1 := by omega
+  rcases this with rfl | rfl
+  · rw [nE0] at h; simp only [Outcome.ok.injEq, Option.some.injEq] at h; exact Or.inl h.symm
+  · rw [nE1] at h; simp only [Outcome.ok.injEq, Option.some.injEq] at h; exact Or.inr h.symm
+
+theorem nChildEntries : ∀ c, IsEntry nF nP.childIfd nP.off (ptrCount nF nP) c → c = nL := by
+  intro c hc
+  obtain ⟨k, hk, he, _⟩ := hc
+  rw [nPc] at hk he
+  have : k = 0 := by omega
+  subst this
+  have h0 := nC0
+  rw [show nP.off = 44 from rfl] at he
+  rw [h0] at he; simp only [Outcome.ok.injEq, Option.some.injEq] at he; exact he.symm
+
+theorem nFlat : FlatDir nF nP.childIfd nP.off (ptrCount nF nP) (4 * 1024 * 1024) bufioSize := by
+  rw [nPc]
+  have key : ∀ k t, k < 1 → entryAt nP.childIfd ((nF.drop (nP.off + 2)).take (1 * 12)) k = .ok (some t) → t = nL := by
+    intro k t hk h
+    have : k = 0 := by omega
+    subst this
+    rw [show nP.off = 44 from rfl, nC0] at h; simp only [Outcome.ok.injEq, Option.some.injEq] at h; exact h.symm
+  refine ⟨by decide, by decide, by decide +kernel, by decide, by decide, ?_, ?_, fun h => by cases h⟩
+  · intro k t hk h
+    rw [key k t hk h]
+    exact ⟨by decide, by decide, fun hf => by simp [nL, Tag.isEmbedded, Tag.size, typeSize] at hf, fun _ => by decide⟩
+  · intro k k' t t' hk hk' hne
+    omega
+
+theorem nWorld : World nF (4 * 1024 * 1024) bufioSize (fun x => x ∈ [nM, nP, nL]) := by
+  have hmem : ∀ x, x ∈ [nM, nP, nL] → x = nM ∨ x = nP ∨ x = nL := by intro x hx; simpa using hx
+  have hpos : ∀ x, x ∈ [nM, nP, nL] → 0 < extent nF x := by
+    intro x hx
+    rcases hmem x hx with rfl | rfl | rfl
+    · rw [nExtM]; decide
+    · rw [nExtP]; decide
+    · rw [nExtL]; decide
+  refine ⟨?_, ?_, ?_, ?_, cap_of_list nF [nM, nP, nL] (by decide) _ (fun x hx => hx) hpos⟩
+  · intro x hx
+    rcases hmem x hx with rfl | rfl | rfl
+    · exact Or.inl ⟨by decide, by decide, by decide, by decide, by decide, by decide⟩
+    · exact Or.inr ⟨⟨rfl, rfl, Or.inr rfl⟩, nFlat⟩
+    · exact Or.inl ⟨by decide, by decide, by decide, by decide, by decide, by decide⟩
+  · intro x y hx hy hne
+    unfold DisjS
+    rcases hmem x hx with rfl | rfl | rfl <;> rcases hmem y hy with rfl | rfl | rfl <;>
+      first
+      | exact absurd rfl hne
+      | (simp only [nExtM, nExtP, nExtL]; decide)
+  · intro p hp hip c hc
+    rcases hmem p hp with rfl | rfl | rfl
+    · exact absurd hip.1 (by decide)
+    · rw [nChildEntries c hc]; simp
+    · exact absurd hip.1 (by decide)
+  · intro p q hp hq hip hiq _
+    have hpP : p = nP := by
+      rcases hmem p hp with rfl | rfl | rfl
+      · exact absurd hip.1 (by decide)
+      · rfl
+      · exact absurd hip.1 (by decide)
+    have hqP : q = nP := by
+      rcases hmem q hq with rfl | rfl | rfl
+      · exact absurd hiq.1 (by decide)
+      · rfl
+      · exact absurd hiq.1 (by decide)
+    rw [hpP, hqP]
+
+theorem nRootOK : DirOK nF sampleIfd 8 2 (4 * 1024 * 1024) bufioSize (extent nF) := by
+  refine ⟨by decide, by decide, by decide +kernel, by decide, by decide, ?_, ?_, fun _ => by decide +kernel⟩
+  · intro k t hk h
+    rcases nRootEntries k t hk h with rfl | rfl
+    · exact ⟨fun hf => by simp [nM, Tag.isEmbedded, Tag.size, typeSize] at hf, fun _ => ⟨by decide, by rw [nExtM]; decide⟩⟩
+    · exact ⟨fun hf => by simp [nP, Tag.isEmbedded, tIfd] at hf, fun _ => ⟨by decide, by rw [nExtP]; decide⟩⟩
+  · intro k k' t t' hk hk' hne h h' _ _
+    have hk2 : (k = 0 ∧ k' = 1) ∨ (k = 1 ∧ k' = 0) := by omega
+    unfold DisjS
+    rcases hk2 with ⟨rfl, rfl⟩ | ⟨rfl, rfl⟩
+    · rw [nE0] at h; rw [nE1] at h'
+      simp only [Outcome.ok.injEq, Option.some.injEq] at h h'
+      rw [← h, ← h', nExtM, nExtP]; decide
+    · rw [nE1] at h; rw [nE0] at h'
+      simp only [Outcome.ok.injEq, Option.some.injEq] at h h'
+      rw [← h, ← h', nExtM, nExtP]; decide
+
+/-- the sample meets every hypothesis of `C03_nested_tiff_exact` -/
+example : World nF (4 * 1024 * 1024) bufioSize (fun x => x ∈ [nM, nP, nL]) ∧
+    DirOK nF sampleIfd 8 2 (4 * 1024 * 1024) bufioSize (extent nF) ∧
+    (∀ x, IsEntry nF sampleIfd 8 2 x → x ∈ [nM, nP, nL]) := by
+  refine ⟨nWorld, nRootOK, ?_⟩
+  intro x hx
+  obtain ⟨k, hk, he, _⟩ := hx
+  rcases nRootEntries k x hk he with rfl | rfl <;> simp
+
+/-- and the model run on it makes exactly two reads, Make then LensModel, each with the bytes at its offset -/
+example : readsOf (decodeTiff sampleTb nF true { order := .little, firstIfd := 8, firstIfdType := ifd0, exifLength := 0, imageType := 0 })
+    = [(nM, some [67, 97, 110, 111, 110, 0]), (nL, some [82, 70, 32, 53, 48, 109, 109, 0])] := by decide +kernel
 
 end Imeta.Exif
